@@ -437,7 +437,7 @@ def run(chk):
     chk.assumptions = ['the virtual source readData( p, n) writes at most n bytes at p and returns the number written '
                        '(<= n); the sink writeData( p, n) reads n bytes',
                        'the caller passes at least len bytes at data (documented extent)',
-                       'new unsigned char[ N] yields N bytes']
+                       'new unsigned char[ S] yields S bytes (S >= N is established by rule O7)']
     chk.trusted_base = ['clang 14 front end', '/verif/tools/celma-facts.cc', '/verif/cv/bounds.py + lin.py']
     chk.rule('O1', 'bounds obligations and class invariants (Engine C)', 20)
     chk.rule('O4', 'byte-stream fidelity: in-order, exactly-once delivery proved by content invariants', 60)
